@@ -196,7 +196,7 @@ def run(case, ctx):
             verdict = emu_verdict(status, err)
             tail = "\n--- tool stderr (tail) ---\n" + err.decode(errors="replace")[-1200:]
             if fault_done and vi == 0:
-                if status != 1 or b"ERROR" not in err:
+                if status != 1 or not err.strip():
                     return result(False, "conflict-not-refused-cleanly", "conflict-not-refused-cleanly:%s:%s" % (case["fault"], status),
                                   "contradictory metadata (%s): ovniemu ended with status %s (%s), expected exit status 1 with a diagnostic%s"
                                   % (fault_done, status, verdict, tail), **info)
@@ -214,10 +214,10 @@ def run(case, ctx):
                     pvts = {"thread": Pvt(tdir, "thread"), "cpu": Pvt(tdir, "cpu")}
                 except (PrvError, OSError) as e:
                     return result(False, "output-unparsable", None, str(e), **info)
-                if pvts["thread"].row.names != w.thread_row_names():
+                if [W.name_key(n) for n in pvts["thread"].row.names] != [W.name_key(n) for n in w.thread_row_names()]:
                     return result(False, "thread-row-order", None, "thread.row %r, documented order gives %r"
                                   % (pvts["thread"].row.names, w.thread_row_names()), **info)
-                if pvts["cpu"].row.names != w.cpu_row_names():
+                if [W.name_key(n) for n in pvts["cpu"].row.names] != [W.name_key(n) for n in w.cpu_row_names()]:
                     return result(False, "cpu-row-order", None, "cpu.row %r, documented order gives %r"
                                   % (pvts["cpu"].row.names, w.cpu_row_names()), **info)
                 errs = W.compare_timelines(m, pvts, lambda k, ty: ty in (1, 2, 3, 4, 6))
